@@ -362,6 +362,10 @@ func verifC19dCheck(res *Result, err error, obj *verifC19dObj, c *verifC19dCfg) 
 	default:
 		verifAssert(false, "unexpected status")
 	}
+	switch st {
+	case IterationLimit, FunctionConvergence, FunctionNegativeInfinity, GradientThreshold:
+		verifAssert(s.MajorIterations >= 1, "a status decided at a major iteration comes with a counted major iteration")
+	}
 	if recFailed {
 		verifAssert(st == Failure && err == verifC19dRecErr, "a failing Recorder stops the run with Failure and its error")
 		verifAssert(rec.afterFail == 0, "the Recorder is not called again after it failed")
@@ -375,6 +379,13 @@ func verifC19dCheck(res *Result, err error, obj *verifC19dObj, c *verifC19dCfg) 
 		}
 		// The terminating major iteration is not recorded.
 		verifAssert(rec.majors == s.MajorIterations || rec.majors+1 == s.MajorIterations, "Stats.MajorIterations agrees with the major iterations the Recorder saw")
+		switch st {
+		case IterationLimit, FunctionConvergence, FunctionNegativeInfinity:
+			// stopped by a major iteration, which is counted but not recorded
+			verifAssert(rec.majors+1 == s.MajorIterations, "the major iteration that stopped the run is counted")
+		case FunctionEvaluationLimit, GradientEvaluationLimit, HessianEvaluationLimit, Failure:
+			verifAssert(rec.majors == s.MajorIterations, "every major iteration before an evaluation limit or a failure was recorded")
+		}
 	}
 
 	// Converse for the sequential methods: a reached evaluation limit is reported.
